@@ -482,8 +482,12 @@ func setMapField(field reflect.Value, fieldType reflect.Type, isPtr bool, mapArr
 		if err := setFieldFromArrow(k, fieldType.Key(), keys, int(start)+j, tagInfo{}); err != nil {
 			return fmt.Errorf("map key [%d]: %w", j, err)
 		}
-		if err := setFieldFromArrow(v, fieldType.Elem(), items, int(start)+j, tagInfo{}); err != nil {
-			return fmt.Errorf("map value [%d]: %w", j, err)
+		// A null item stays the zero value (nil for pointer items), as for
+		// list elements; decoding it would turn {"a": nil} into {"a": &0}.
+		if !items.IsNull(int(start) + j) {
+			if err := setFieldFromArrow(v, fieldType.Elem(), items, int(start)+j, tagInfo{}); err != nil {
+				return fmt.Errorf("map value [%d]: %w", j, err)
+			}
 		}
 		m.SetMapIndex(k, v)
 	}
